@@ -7,7 +7,7 @@
 (* the observed wrong answer is the one the deviation predicts.  Anything  *)
 (* else is a violation.  A deviation that is not open matches nothing.     *)
 (***************************************************************************)
-EXTENDS Chars, Dpkg, Rpm
+EXTENDS Chars, Dpkg, Rpm, Alpm, MavenCV
 
 \* mm is a mismatch record; the fields used depend on the deviation.
 Dev(d, mm) ==
@@ -15,8 +15,26 @@ Dev(d, mm) ==
     \* rpm: compareRPMVersionString is not rpmvercmp (alphabetic segment newer than numeric, '_' and '~'
     \* glued into alphabetic runs, '^' a plain separator, "" older than "0"); pinned by the repository's
     \* own tests (1.2.3-1 < 1.2.3-a).  Known iff the implementation model predicts the observed sign.
+    \* alpm: libalpm's vercmp itself is not transitive once a pkgver has a leading, trailing or
+    \* repeated separator (1. < 1.0 < 1..a < 1.); the repository's tests pin vercmp's answers on such
+    \* strings.  Known iff an irregular member takes part and the observed sign is vercmp's.
+    [] d = "KF-alpm-01" -> mm.prop = "C01" /\ mm.eco = "alpm" /\ mm.why = "rank-irregular"
+                           /\ mm.model = mm.got
+    \* maven: ComparableVersion (3.8.7) itself is not transitive outside the conventional shapes
+    \* (1 < 1-1 < 1.0.alpha- < 1: a nested list compares below any number).  Known iff a member
+    \* outside the conventional shapes takes part and the observed sign is ComparableVersion's.
+    [] d = "KF-maven-01" -> mm.prop = "C01" /\ mm.eco = "maven" /\ mm.why = "rank-irregular"
+                           /\ mm.model = mm.got
     [] d = "KF-rpm-01" -> mm.prop = "C11" /\ mm.why = "ref" /\ RpmImplCmp(S2C(mm.a), S2C(mm.b)) = mm.got
     [] OTHER -> FALSE
+
+\* C01: members an open finding declares irregular (judged separately from the regular ones)
+Irregular(open, eco, cs) ==
+  \/ ("KF-alpm-01" \in open /\ eco = "alpm" /\ AlpmIrregular(cs))
+  \/ ("KF-maven-01" \in open /\ eco = "maven" /\ ~MvRegular(cs))
+\* the model of what the code computes on such members (the finding's predicted answers)
+IrrKey(eco, cs) == IF eco = "maven" THEN MvParseImpl(cs) ELSE cs
+IrrCmp(eco, x, y) == IF eco = "maven" THEN MvListCmp(x, y, 1) ELSE IF eco = "alpm" THEN AlpmCmp(x, y) ELSE 2
 
 KnownAs(open, mm) ==
   LET S == {d \in open : Dev(d, mm)} IN IF S = {} THEN "" ELSE CHOOSE d \in S : TRUE
